@@ -72,6 +72,9 @@ theorem PatchInv.write {b T kk cur curO} {st : St} (h : PatchInv b T kk cur curO
 
 theorem dictDelAll_nil (cur : List (HVal × HVal)) : dictDelAll cur [] = cur := rfl
 
+theorem write_unmod (l : Loc) (c : Cell) (st : St) : (Heap.write l c st).2.unmod = st.unmod := by
+  unfold Heap.write; split <;> rfl
+
 theorem runPatches_ref {w : World} {cfg : Cfg} {b W K : Nat} {okc : Call → Obj → Prop} {tot : Call → Prop}
     {rec : Rec} (hrec : HookOK b rec) (href : RecRef w cfg b W K okc tot rec) (det : Bool) (T : Loc) (hbT : b ≤ T)
     (den : HVal → Option Obj) :
@@ -80,11 +83,14 @@ theorem runPatches_ref {w : World} {cfg : Cfg} {b W K : Nat} {okc : Call → Obj
       (∀ cf ff, (runPatches rec det T ps cur failed st).1 = some (cf, ff) →
         (ff = false → failed = false ∧ ∃ cfO, patchPure w cfg den ps curO = some cfO ∧
             PatchInv b T (K + W) cf cfO (runPatches rec det T ps cur failed st).2) ∧
-        (ff = true → failed = true ∨ (PatchesTot tot ps → patchPure w cfg den ps curO = none))) ∧
-      ((runPatches rec det T ps cur failed st).1 = none → PatchesTot tot ps → patchPure w cfg den ps curO = none)
+        (ff = true → failed = true ∨ (PatchesTot tot ps → (runPatches rec det T ps cur failed st).2.unmod = false →
+            patchPure w cfg den ps curO = none))) ∧
+      ((runPatches rec det T ps cur failed st).1 = none → PatchesTot tot ps →
+        (runPatches rec det T ps cur failed st).2.unmod = false → patchPure w cfg den ps curO = none) ∧
+      (st.unmod = true → (runPatches rec det T ps cur failed st).2.unmod = true)
   | [], cur, curO, failed, st, hinv, _ => by
     unfold runPatches
-    refine ⟨fun cf ff h => ?_, fun h => by simp [Heap.ret] at h⟩
+    refine ⟨fun cf ff h => ?_, fun h => by simp [Heap.ret] at h, fun h => h⟩
     simp only [Heap.ret, Option.some.injEq, Prod.mk.injEq] at h
     obtain ⟨rfl, rfl⟩ := h
     exact ⟨fun hf => ⟨hf, curO, rfl, hinv⟩, fun hf => Or.inl hf⟩
@@ -103,12 +109,14 @@ theorem runPatches_ref {w : World} {cfg : Cfg} {b W K : Nat} {okc : Call → Obj
     simp only [dictDelAll_nil, Heap.bind]
     cases hw : write T (.dict cur) st with
     | mk r1 st2 =>
+      have hum : st2.unmod = st.unmod := by
+        have := write_unmod T (.dict cur) st; rw [hw] at this; exact this
       rw [hw] at hw1 ih
       simp only at hw1 ih ⊢
       subst hw1
       rw [hpp]
-      exact ⟨fun cf ff h => ⟨(ih.1 cf ff h).1, fun hf => ((ih.1 cf ff h).2 hf).imp id (fun h' ht => h' (htot ht))⟩,
-        fun h ht => ih.2 h (htot ht)⟩
+      exact ⟨fun cf ff h => ⟨(ih.1 cf ff h).1, fun hf => ((ih.1 cf ff h).2 hf).imp id (fun h' ht hu => h' (htot ht) hu)⟩,
+        fun h ht hu => ih.2.1 h (htot ht) hu, fun hu => ih.2.2 (by rw [hum]; exact hu)⟩
   | ⟨dels, some (c, x, key)⟩ :: ps, cur, curO, failed, st, hinv, hok => by
     have hp := hok _ (List.mem_cons_self ..)
     have hdels : dels = [] := hp.1
@@ -134,19 +142,27 @@ theorem runPatches_ref {w : World} {cfg : Cfg} {b W K : Nat} {okc : Call → Obj
       cases r with
       | none =>
         simp only
-        have hnone : PatchesTot tot (⟨[], some (c, x, key)⟩ :: ps) →
+        have hum1 : st.unmod = true → st1.unmod = true := by
+          have := e1.unmodKeep; rw [hr] at this; exact this
+        have hnone : PatchesTot tot (⟨[], some (c, x, key)⟩ :: ps) → st1.unmod = false →
             patchPure w cfg den (⟨[], some (c, x, key)⟩ :: ps) curO = none := by
-          intro ht
-          simp only [patchPure, hdo, r1.2 rfl (htc ht)]
+          intro ht hu
+          simp only [patchPure, hdo, r1.2 rfl (htc ht) hu]
         cases det with
         | true =>
           simp only [if_true]
           have ih := runPatches_ref hrec href true T hbT den ps cur curO true st1 hinv1 hok1
-          refine ⟨fun cf ff h => ⟨fun hf => ?_, fun _ => Or.inr hnone⟩, fun _ ht => hnone ht⟩
+          have hback : (runPatches rec true T ps cur true st1).2.unmod = false → st1.unmod = false := by
+            intro hu
+            cases h : st1.unmod with
+            | false => rfl
+            | true => rw [ih.2.2 h] at hu; cases hu
+          refine ⟨fun cf ff h => ⟨fun hf => ?_, fun _ => Or.inr (fun ht hu => hnone ht (hback hu))⟩,
+            fun _ ht hu => hnone ht (hback hu), fun hu => ih.2.2 (hum1 hu)⟩
           exact absurd ((ih.1 cf ff h).1 hf).1 (by simp)
         | false =>
           simp only [Bool.false_eq_true, if_false, Heap.raise]
-          exact ⟨fun cf ff h => by simp at h, fun _ ht => hnone ht⟩
+          exact ⟨fun cf ff h => by simp at h, fun _ ht hu => hnone ht hu, hum1⟩
       | some y =>
         simp only
         obtain ⟨py, hpy, hdy⟩ := r1.1 y rfl
@@ -163,12 +179,16 @@ theorem runPatches_ref {w : World} {cfg : Cfg} {b W K : Nat} {okc : Call → Obj
           simp only [patchPure, hdo, hpy]
         cases hw : write T (.dict (dictSetS cur key y)) st1 with
         | mk r2 st2 =>
+          have hum1 : st.unmod = true → st1.unmod = true := by
+            have := e1.unmodKeep; rw [hr] at this; exact this
+          have hum : st2.unmod = st1.unmod := by
+            have := write_unmod T (.dict (dictSetS cur key y)) st1; rw [hw] at this; exact this
           rw [hw] at hw1 ih
           simp only at hw1 ih ⊢
           subst hw1
           simp only [Heap.bind, hw]
           rw [hpp]
-          exact ⟨fun cf ff h => ⟨(ih.1 cf ff h).1, fun hf => ((ih.1 cf ff h).2 hf).imp id (fun h' ht => h' (htot ht))⟩,
-            fun h ht => ih.2 h (htot ht)⟩
+          exact ⟨fun cf ff h => ⟨(ih.1 cf ff h).1, fun hf => ((ih.1 cf ff h).2 hf).imp id (fun h' ht hu => h' (htot ht) hu)⟩,
+            fun h ht hu => ih.2.1 h (htot ht) hu, fun hu => ih.2.2 (by rw [hum]; exact hum1 hu)⟩
 
 end CattrsModel.Heap
